@@ -51,3 +51,7 @@ func Hit(i int) { Probes[i]++ }
 
 //go:norace
 func ProbesReset() { Probes = [NProbes]uint64{} }
+
+// BaseGoroutines is the number of goroutines alive when the current sequential run began (set by
+// the Engine-C harness): more than that means the code under test has started goroutines.
+var BaseGoroutines int
